@@ -98,7 +98,9 @@ def generate(rng):
     scn['async'] = rng.random() < 0.35
     scn['echo'] = rng.random() < 0.25
     scn['use_poll'] = rng.random() < 0.3
-    scn['cmds'] = [gen_cmd(rng) for _ in range(rng.randint(1, 7))]
+    import os
+    deep = os.environ.get('SIMPEX_TIER') == 'thorough' and rng.random() < 0.4
+    scn['cmds'] = [gen_cmd(rng) for _ in range(rng.randint(6, 20) if deep else rng.randint(1, 7))]
     scn['maxread'] = rng.choice([1, 7, 2000, 2000, 2000])
     if rng.random() < 0.35:
         scn['tear'] = [rng.choice([0, 1, 3, 16, 17]) for _ in range(rng.randint(1, 5))]
